@@ -22,6 +22,15 @@ type dgen struct {
 	d     *spec.Design
 	feats map[string]bool
 	seq   int
+	focus string // "", "views", "security": biases the draw towards the features a property is about
+}
+
+// chance draws true with probability num/den, or hi/den when the generator is focused on topic.
+func (g *dgen) chance(kind, topic string, num, hi, den int) bool {
+	if g.focus == topic {
+		num = hi
+	}
+	return g.t.Draw(kind, den) < num
 }
 
 func (g *dgen) feat(f string) { g.feats[f] = true }
@@ -364,7 +373,7 @@ func (g *dgen) method(svc *spec.Service, idx int) *spec.Method {
 	m.Routes = []*spec.Route{{Verb: verb, Path: path}}
 	// ---- result
 	status := 200
-	if t.Draw("viewed-result", 4) == 0 {
+	if g.chance("viewed-result", "views", 1, 3, 4) {
 		// the result is a result type with views, all attributes in the body
 		var u *spec.UserType
 		var have []*spec.UserType
@@ -480,8 +489,8 @@ func (g *dgen) method(svc *spec.Service, idx int) *spec.Method {
 }
 
 // GenDesign draws one design named name.
-func GenDesign(t *verifsim.Tape, name string) *spec.Design {
-	g := &dgen{t: t, d: &spec.Design{Name: name}, feats: map[string]bool{}}
+func GenDesign(t *verifsim.Tape, name, focus string) *spec.Design {
+	g := &dgen{t: t, d: &spec.Design{Name: name}, feats: map[string]bool{}, focus: focus}
 	g.security()
 	ns := 1 + t.Pick("nservices", 5, 2, 1)
 	for i := 0; i < ns; i++ {
@@ -534,7 +543,7 @@ var schemeKinds = []string{"basic", "apikey", "jwt", "oauth2"}
 // carry one credential attribute of each kind) and the API-level requirements.
 func (g *dgen) security() {
 	t := g.t
-	if t.Draw("has-security", 3) == 0 {
+	if !g.chance("has-security", "security", 2, 3, 3) {
 		return
 	}
 	for i, k := range schemeKinds {
@@ -758,7 +767,7 @@ func (g *dgen) newResultType() *spec.UserType {
 			earlier = append(earlier, x)
 		}
 	}
-	if len(earlier) > 0 && t.Draw("rt-nested", 2) == 0 {
+	if len(earlier) > 0 && g.chance("rt-nested", "views", 2, 3, 4) {
 		nu := earlier[t.Draw("rt-which", len(earlier))]
 		f := &spec.Attr{Name: "child", Type: &spec.Type{Kind: spec.User, Name: nu.Name}}
 		if len(nu.Views) > 1 && t.Draw("rt-view-override", 2) == 0 {
@@ -799,6 +808,34 @@ func (g *dgen) newResultType() *spec.UserType {
 		k := 1 + t.Draw("rt-default-k", len(all))
 		u.Views = []*spec.View{{Name: "default", Fields: all[:k]}, {Name: "extended", Fields: all}}
 		g.feat("views:two-partial-default")
+	}
+	// per-view override of a nested attribute's view (wins over the view set on the attribute)
+	for _, f := range o.Fields {
+		if f.Type.Kind != spec.User || f.Name != "child" {
+			continue
+		}
+		nu := g.d.UserType(f.Type.Name)
+		if nu == nil || len(nu.Views) < 2 || !g.chance("rt-view-level-override", "views", 2, 3, 4) {
+			continue
+		}
+		for _, vw := range u.Views {
+			has := false
+			for _, fn := range vw.Fields {
+				if fn == f.Name {
+					has = true
+				}
+			}
+			if has && t.Draw("rt-override-this-view", 2) == 0 {
+				ov := nu.Views[t.Draw("rt-ovv", len(nu.Views))].Name
+				if ov != f.View {
+					if vw.Overrides == nil {
+						vw.Overrides = map[string]string{}
+					}
+					vw.Overrides[f.Name] = ov
+					g.feat("views:per-view-override")
+				}
+			}
+		}
 	}
 	g.d.Types = append(g.d.Types, u)
 	return u
